@@ -58,6 +58,22 @@ Proof. exact c18_call_order. Qed.
 Theorem C18_compute_next_gt : forall l c, 0 <= l < i64_max -> l < compute_next l c.
 Proof. exact compute_next_gt. Qed.
 
+(* the clock-skew warning branch (i64 `last - u_cur`): it cannot overflow for any reading below 2^63
+   microseconds (nor for a pre-epoch reading), and then the warning configuration does not change
+   the result; for a reading of 2^63 microseconds it does overflow - a panic under overflow checks *)
+Theorem C18_warn_sub_safe : forall last m, 0 <= last <= i64_max -> 0 <= m < 2 ^ 63 ->
+  warn_sub_overflows last (Some m) = false /\
+  forall w, compute_next_checked w last (Some m) = Some (compute_next last (Some m)).
+Proof. exact warn_sub_safe. Qed.
+Theorem C18_warn_sub_safe_preepoch : forall w last,
+  compute_next_checked w last None = Some (compute_next last None).
+Proof. exact warn_sub_safe_preepoch. Qed.
+Theorem C18_warn_sub_overflow_witness :
+  warn_sub_overflows 1700000000000000 (Some (2 ^ 63)) = true /\
+  compute_next_checked true 1700000000000000 (Some (2 ^ 63)) = None /\
+  compute_next_checked false 1700000000000000 (Some (2 ^ 63)) = Some 1700000000000001.
+Proof. exact warn_sub_overflow_witness. Qed.
+
 (* a timestamp set on the statement is the one sent, and the generator is not consulted *)
 Theorem C18_explicit : forall t gen,
   choose_ts (Some t) gen = Some t /\ gen_consulted (Some t) = false.
@@ -164,6 +180,9 @@ Print Assumptions C18_distinct.
 Print Assumptions C18_thread_mono.
 Print Assumptions C18_call_order.
 Print Assumptions C18_compute_next_gt.
+Print Assumptions C18_warn_sub_safe.
+Print Assumptions C18_warn_sub_safe_preepoch.
+Print Assumptions C18_warn_sub_overflow_witness.
 Print Assumptions C18_explicit.
 Print Assumptions C18_generated.
 Print Assumptions C18_frames_ts.
